@@ -67,7 +67,7 @@ func (f *Zerop) Call(s *slip.Scope, args slip.List, depth int) slip.Object {
 			return slip.True
 		}
 	case *slip.Ratio:
-		if ta.RealValue() == 0.0 {
+		if (*big.Rat)(ta).Sign() == 0 {
 			return slip.True
 		}
 	default:
